@@ -5,6 +5,7 @@ package lang
 
 import (
 	"fmt"
+	"math"
 	"strconv"
 	"strings"
 )
@@ -510,6 +511,10 @@ func (r *R) builtin(op string, a []V) V {
 			}
 		}
 		return acc
+	case "**":
+		need(2)
+		x := ints()
+		return int64(math.Pow(float64(x[0]), float64(x[1]))) // the language's integer power: float64 power, truncated
 	case "<", ">", "<=", ">=", "==", "!=":
 		need(2)
 		if s0, ok := a[0].(string); ok {
